@@ -52,7 +52,10 @@ def enum_prog(name, variants, repr="u16", comma=False):
     """variants: list of dict(skip, idx, disc, fields)"""
     body = ""
     for j, v in enumerate(variants):
-        attrs = ("#[codec(skip)] " if v["skip"] else "") + ("#[codec(index = %d)] " % v["idx"] if v["idx"] is not None else "")
+        a_skip = "#[codec(skip)] " if v["skip"] else ""
+        a_idx = "#[codec(index = %d)] " % v["idx"] if v["idx"] is not None else ""
+        # both orders of the two attributes occur (odd variants: index first)
+        attrs = (a_idx + a_skip) if j % 2 == 1 else (a_skip + a_idx)
         item = "V%d" % j
         if v["fields"]:
             item += " { %s }" % rust_fields(v["fields"], comma)
